@@ -213,6 +213,7 @@ type HarnessResult struct {
 	Cuts            map[string]int
 	Unsupported     map[string]int
 	Unwinds         map[string]int
+	CutReasons      map[string]int
 	Asserts         int
 	Discharged      int
 	UnknownA        int
@@ -250,7 +251,7 @@ type worker struct {
 func (e *Engine) Explore(fn *ssa.Function, name string) *HarnessResult {
 	t0 := time.Now()
 	hr := &HarnessResult{Name: name, Outcomes: map[string]int{}, Violations: map[string]*Violation{}, ViolCount: map[string]int{},
-		Reached: map[string]int{}, Cuts: map[string]int{}, Unsupported: map[string]int{}, Unwinds: map[string]int{},
+		Reached: map[string]int{}, Cuts: map[string]int{}, Unsupported: map[string]int{}, Unwinds: map[string]int{}, CutReasons: map[string]int{},
 		Funcs: map[string]bool{}, Events: map[string]int{}, ForkSites: map[string]int{}}
 	var mu sync.Mutex
 	work := [][]int{nil}
@@ -314,6 +315,8 @@ func (e *Engine) Explore(fn *ssa.Function, name string) *HarnessResult {
 					hr.Unsupported[res.Detail]++
 				case "unwind":
 					hr.Unwinds[res.Detail]++
+				case "cut":
+					hr.CutReasons[res.Detail]++
 				}
 				for i := range res.Violations {
 					v := &res.Violations[i]
